@@ -14,6 +14,7 @@
 -/
 import RumaModel.Lemmas.HtmlTree
 import RumaModel.Lemmas.HtmlTables
+import RumaModel.Lemmas.HtmlPlain
 namespace Ruma.Props.C14
 open Ruma Ruma.Html Ruma.Spec.HtmlPolicy Ruma.Lemmas.Html
 
@@ -104,43 +105,28 @@ open Spec.HtmlAllow
 /-- In strict and compat mode, with or without reply-fallback removal, the allowed elements are
 the spec's list — minus `mx-reply` under reply-fallback removal. -/
 theorem plain_elemOk_spec (m : Mode) (rrf : Bool) (n : Str) :
-    elemOk lists (plain (some m) rrf) n = (elemAllowed n && !(rrf && n == replyName)) := by
-  simp only [elemOk, elemRemoved, elemListed, plain, optContains, isOverride, Cfg.useStrict, lists,
-    elemAllowed, Option.isSome_some, Option.map_none, Option.isSome_none, Bool.false_or, Bool.not_true,
-    Bool.not_false, Bool.true_and, Bool.and_comm]
+    elemOk lists (plain (some m) rrf) n = (elemAllowed n && !(rrf && n == replyName)) :=
+  Lemmas.Html.plain_elemOk_spec m rrf n
 
 /-- … the allowed attributes are the spec's rows. -/
 theorem plain_attrOk_spec (m : Mode) (rrf : Bool) (el a : Str) :
-    attrOk lists (plain (some m) rrf) el a = attrAllowed el a := by
-  simp only [attrOk, plain, isOverride, Cfg.useStrict, lists, attrAllowed, row, Option.bind_none,
-    Option.isSome_none, Option.isSome_some, Bool.or_true, Bool.not_true, Bool.false_or,
-    Bool.not_false, Bool.true_and, if_true, optContains]
-  cases mapGet Spec.HtmlAllow.attrs el <;> simp
+    attrOk lists (plain (some m) rrf) el a = attrAllowed el a :=
+  Lemmas.Html.plain_attrOk_spec m rrf el a
 
 /-- … the value restrictions are the spec's scheme lists (`matrix:` only in compat mode). -/
 theorem plain_schemeList_spec (m : Mode) (rrf : Bool) (el a : Str) :
-    Spec.HtmlPolicy.schemeList lists (plain (some m) rrf) el a = Spec.HtmlAllow.schemeList m el a := by
-  cases m <;>
-  simp [Spec.HtmlPolicy.schemeList, plain, schemeCtx, attrSchemes, isOverride, Cfg.useStrict,
-      Cfg.useCompat, lists, Spec.HtmlAllow.schemeList]
+    Spec.HtmlPolicy.schemeList lists (plain (some m) rrf) el a = Spec.HtmlAllow.schemeList m el a :=
+  Lemmas.Html.plain_schemeList_spec m rrf el a
 
 /-- … the value restrictions are the spec's scheme lists (`matrix:` only in compat mode). -/
 theorem plain_valueOk_spec (m : Mode) (rrf : Bool) (el a v : Str) :
-    valueOk lists (plain (some m) rrf) el a v = valueAllowed m el a v := by
-  unfold valueOk valueAllowed
-  rw [plain_schemeList_spec]
-  have : denied (plain (some m) rrf) el a v = false := by simp [denied, plain, schemesHit]
-  rw [this]
-  cases Spec.HtmlAllow.schemeList m el a with
-  | none => simp [schemesPass]
-  | some l => simp only [schemesPass, Bool.not_false, Bool.true_and]; rfl
+    valueOk lists (plain (some m) rrf) el a v = valueAllowed m el a v :=
+  Lemmas.Html.plain_valueOk_spec m rrf el a v
 
 /-- … the allowed classes are `language-*` on `code`. -/
 theorem plain_classOk_spec (m : Mode) (rrf : Bool) (el cl : Str) :
-    classOk lists (plain (some m) rrf) el cl = classAllowed el cl := by
-  simp only [classOk, plain, isOverride, Cfg.useStrict, lists, classAllowed, row, removedClass,
-    Option.bind_none, Option.isSome_none, Option.isSome_some, Bool.or_true, Bool.not_true,
-    Bool.false_or, Bool.not_false, Bool.true_and, if_true, Option.getD_none, List.nil_append]
+    classOk lists (plain (some m) rrf) el cl = classAllowed el cl :=
+  Lemmas.Html.plain_classOk_spec m rrf el cl
 
 /-- … the maximum depth is 100. -/
 theorem plain_maxDepth_spec (m : Mode) (rrf : Bool) :
@@ -148,25 +134,8 @@ theorem plain_maxDepth_spec (m : Mode) (rrf : Bool) :
 
 /-- … and `class` carries no URI restriction, so `clean_schemes_allowed` loses nothing there. -/
 theorem plain_class_unrestricted (m : Mode) (rrf : Bool) (el v : Str) :
-    valueOk lists (plain (some m) rrf) el className v = true := by
-  rw [plain_valueOk_spec]
-  have h1 : ∀ el, (mapGet schemesStrict el).bind (mapGet · className) = none := by
-    intro el
-    by_cases ha : el = bs "a"
-    · subst ha; decide
-    · by_cases hi : el = bs "img"
-      · subst hi; decide
-      · have : mapGet schemesStrict el = none := by
-          simp [schemesStrict, mapGet, Ne.symm ha, Ne.symm hi]
-        simp [this]
-  have h2 : ∀ el, (mapGet schemesCompat el).bind (mapGet · className) = none := by
-    intro el
-    by_cases ha : el = bs "a"
-    · subst ha; decide
-    · have : mapGet schemesCompat el = none := by simp [schemesCompat, mapGet, Ne.symm ha]
-      simp [this]
-  simp only [valueAllowed, Spec.HtmlAllow.schemeList, h1, h2]
-  cases m <;> simp
+    valueOk lists (plain (some m) rrf) el className v = true :=
+  Lemmas.Html.plain_class_unrestricted m rrf el v
 
 /-- The property, in the spec's words, for `sanitize_html(_, mode, reply_fallback)`: every element
 of the output is on the spec's list (and is not `mx-reply` under reply-fallback removal), every
@@ -247,6 +216,7 @@ end Ruma.Props.C14
 #print axioms Ruma.Props.C14.plain_attrOk_spec
 #print axioms Ruma.Props.C14.plain_valueOk_spec
 #print axioms Ruma.Props.C14.plain_classOk_spec
+#print axioms Ruma.Props.C14.plain_maxDepth_spec
 #print axioms Ruma.Props.C14.plain_class_unrestricted
 #print axioms Ruma.Props.C14.standard_output_spec
 #print axioms Ruma.Props.C14.strict_lists_eq_spec
